@@ -43,6 +43,14 @@ V6_DELETES = ["V6_api.delete_func.*", "V6_api.fn:Module::delete_func", "V6_api.F
               "V6b_api2.delete_memory.*", "V6b_api2.fn:Module::delete_memory", "V6b_api2.Memories.delete.*", "V6b_api2.fn:Memories::delete",
               "V6b_api2.ModuleExports.delete.*", "V6b_api2.fn:ModuleExports::delete"]
 
+V8_BASE = ["V8_lower.fn:lemma_*", "V8_lower.fn:FunctionModifier as *", "V8_lower.fn:Instrumenter::*", "V8_lower.fn:Inject::inject", "V8_lower.fn:Opcode::*",
+           "V8_lower.fn:InstrumentationFlag::*", "V8_lower.fn:Instruction::add_instr", "V8_lower.fn:FuncInstrFlag::add_instr", "V8_lower.fn:v_inject_all"]
+LOWER_GLUE = ["Module::resolve_special_instrumentation: the per-function driver (block stack, which helper runs at which instruction, delete_block / retain_end bookkeeping, resolve_on_end maps) is not under contract",
+              "plan_resolution_block_exit, plan_resolution_semantic_after and the save_* helpers use HashMap::entry().and_modify(closure): outside Verus",
+              "the final emission of before / alternate / after lists in encode_internal",
+              "'fires once when ...' is an execution-trace property: neither verifier has a WebAssembly semantics; what is proved is WHERE each helper places WHICH code (placement contracts written from the property text)",
+              "TRUSTED: Inject::inject_all injects the slice in order (closure capturing &mut self)"]
+
 ENCODE_GLUE = "Module::encode_internal (src/ir/module/mod.rs): the call sites of recalculate_ids / fix_op_id_mapping and the per-section emission loops are not under contract"
 
 PROPS = {
@@ -176,6 +184,42 @@ PROPS = {
         "glue": ["the emission order `before; alternate-or-instruction; after` and the final-`end` rule are ~60 lines inside Module::encode_internal: not under contract (a bounded Kani stand-in was infeasible: encode exceeds CBMC's memory)"],
         "design_ref": "DESIGN.md §5 C15",
         "level_text": "Accumulation half: for every injection API path the operator is appended to exactly the list of the active mode of exactly the addressed instruction; clearing removes exactly one mode's list. The order in which the lists are emitted is glue.",
+    },
+    "C17": {
+        "title": "Function entry/exit probes fire once per call on every normal path",
+        "units": ["V8_lower"],
+        "obligations": V8_BASE + ["V8_lower.resolve_function_entry.*", "V8_lower.fn:resolve_function_entry", "V8_lower.resolve_function_exit.*", "V8_lower.fn:resolve_function_exit",
+                                  "V8_lower.exit_wrapper.*", "V8_lower.fn:resolve_function_exit_with_block_wrapper"],
+        "glue": LOWER_GLUE, "design_ref": "DESIGN.md §5 C17-C20",
+        "level_text": "Placement only: entry code goes in front of instruction 0 and is consumed; a copy of the exit code goes immediately before every return / return_call* / unreachable / throw*, and `end` + exit code before the function's final end (closing the wrapper block opened by the entry code) and is consumed; nothing else changes. Proved for all bodies and indices.",
+    },
+    "C18": {
+        "title": "Block entry probes fire on every entry into the block",
+        "units": ["V8_lower"],
+        "obligations": V8_BASE + ["V8_lower.resolve_block_entry.*", "V8_lower.fn:resolve_block_entry"],
+        "glue": LOWER_GLUE, "design_ref": "DESIGN.md §5 C17-C20",
+        "level_text": "Placement only: on block / loop / if / else the probe code is appended to the AFTER list of the opening instruction (= first thing inside the body or arm, re-executed on every loop iteration); on any other instruction nothing changes.",
+    },
+    "C19": {
+        "title": "Block exit probes fire when the block or arm falls through",
+        "units": ["V8_lower"],
+        "obligations": V8_BASE + ["V8_lower.resolve_bodies.*", "V8_lower.fn:resolve_bodies"],
+        "glue": LOWER_GLUE, "design_ref": "DESIGN.md §5 C17-C20",
+        "level_text": "Placement only, and only the emission half: the code saved for a construct's `else`/`end` is emitted into the requested list of that instruction as (flag-guarded chain; unconditional bodies), nothing else changes. WHICH instruction it is saved for (plan_resolution_block_exit) is not under contract.",
+    },
+    "C20": {
+        "title": "Semantic-after probes fire exactly once after the instruction",
+        "units": ["V8_lower"],
+        "obligations": V8_BASE + ["V8_lower.create_bool_flag.*", "V8_lower.fn:create_bool_flag", "V8_lower.fn:add_local", "V8_lower.resolve_bodies.*", "V8_lower.fn:resolve_bodies"],
+        "glue": LOWER_GLUE, "design_ref": "DESIGN.md §5 C17-C20",
+        "level_text": "Placement only: a fresh i32 flag is set to 1 before the branch and reset to 0 after it, with the probe body right after the reset for conditional branches (fall-through); at the target's end each saved body is guarded by its flag in an if / else-if chain. Choice of target block (plan_resolution_semantic_after) is not under contract.",
+    },
+    "C21": {
+        "title": "Block alternate replaces exactly the selected construct",
+        "units": ["V8_lower"],
+        "obligations": V8_BASE + ["V8_lower.plan_resolution_block_alt.*", "V8_lower.fn:plan_resolution_block_alt", "V8_lower.fn:Body::clear_instr"],
+        "glue": LOWER_GLUE, "design_ref": "DESIGN.md §5 C21",
+        "level_text": "Placement only: on block / loop / if / else the replacement becomes the ALTERNATE of the opening instruction (an empty replacement becomes an empty alternate = removal), the construct's end is kept only for `else`; other instructions untouched. Removal of the instructions in between (delete_block tracking) is driver glue.",
     },
     "C22": {
         "title": "Special-mode injections are never silently lost",
